@@ -69,7 +69,12 @@ class Form(Harness):
         "set": ("a = {", "}\n", lambda v: [("a", ("set", [v]))]),
         "nested": ("a = ((", "), (2))\nEND\n", lambda v: [("a", [[v], [2]])]),
         "ingroup": ("GROUP = g\n a = ", "\nEND_GROUP\nEND\n", lambda v: [("g", ("group", [("a", v)]))]),
+        # deeper nesting (PVL family only: ODL limits sequences to two dimensions and keeps objects out of groups)
+        "deep": ("a = (1, (((", "), 5), {2}), 4)\nEND\n", lambda v: [("a", [1, [[[v], 5], ("set", [2])], 4])]),
+        "deepblock": ("OBJECT = o\n GROUP = g\n  OBJECT = p\n   a = ", "\n  END_OBJECT\n  b = 1\n END_GROUP = g\nEND_OBJECT\nEND\n",
+                      lambda v: [("o", ("object", [("g", ("group", [("p", ("object", [("a", v)])), ("b", 1)]))]))]),
     }
+    DEEP = ("deep", "deepblock")
 
     @property
     def bounds(self):
@@ -327,7 +332,8 @@ def obligations(tier):
     obs = []
     quick = tier == "quick"
     for d in LOADERS:
-        ctxs = list(Form.CONTEXTS)
+        ctxs = [c for c in Form.CONTEXTS if c not in Form.DEEP or d in ("PVL", "ISIS", "Omni")]
+        deep = [c for c in Form.DEEP if d in ("PVL", "ISIS", "Omni")]
         # based integers
         if d in ("PVL", "ISIS"):
             combos = [(r, "before") for r in (2, 8, 16)]
@@ -338,25 +344,23 @@ def obligations(tier):
         for r, pos in combos:
             for sign in ("", "+", "-"):
                 for nd in ((1, 3) if quick else (1, 2, 3, 5)):
-                    for c in (("plain", "seq", "tight") if quick else ctxs):
+                    for c in ((["plain", "seq", "tight"] + (deep if nd == 1 else [])) if quick else ctxs):
                         obs.append(Based(dialect=d, radix=r, pos=pos, sign=sign, nd=nd, ctx=c))
         shapes = ["d", "sd", "ddd", "sd.d", "d.", ".d", "s.d", "sd.dEsd", "dEd", "sd.de-d", "d.Esd", "sd.e+d", ".dEsd"] + (
             [] if quick else ["dddddd", "s.dd", "d.dddE+dd", "sdd.E-dd"])
         for sh in shapes:
-            for c in (("plain", "seq", "semi", "set") if quick else ctxs):
-                if c == "set" and d in ("ODL", "PDS3") and False:
-                    continue
+            for c in ((["plain", "seq", "semi", "set"] + (deep if sh in ("sd.d", "dEd") else [])) if quick else ctxs):
                 obs.append(Decimal(dialect=d, shape=sh, ctx=c))
         for q in ('"', "'"):
             for n in ((0, 1, 2) if quick else (0, 1, 2, 3)):
-                for c in (("plain", "seq", "comment") if quick else ctxs):
+                for c in ((["plain", "seq", "comment"] + (deep if n == 1 else [])) if quick else ctxs):
                     obs.append(Quoted(dialect=d, q=q, n=n, ctx=c))
         # folding and dash continuation inside quoted text (lines ending in LF, CR-LF, with indentation)
         for sh in ("a-WWb", "aW-Wb", "a WW b", "a-W-Wb") + (() if quick else ("a-WWWb", "aWW-WWb", "-WWb", "a-WW", "a?WW?")):
             for c in (("plain", "seq") if quick else ("plain", "seq", "ingroup")):
                 obs.append(Quoted(dialect=d, q='"', n=0, ctx=c, shape=sh))
         for n in ((1, 3) if quick else (1, 2, 3, 4)):
-            for c in (("plain", "seq", "tight", "ingroup") if quick else ctxs):
+            for c in ((["plain", "seq", "tight", "ingroup"] + deep) if quick else ctxs):
                 obs.append(Unquoted(dialect=d, n=n, ctx=c))
         for after in ("int", "real") + (("seq",) if d in ("PVL", "ISIS", "Omni") else ()):
             for sp in ("", " "):
